@@ -92,6 +92,9 @@ func LiteDump(l *lite.DB) (*Dump, error) {
 		}
 		for j := range t.Indexes {
 			ix := &t.Indexes[j]
+			if t.WithoutRowid && ix.Origin == "pk" {
+				continue // the table itself
+			}
 			ob, ok := ix.OrderBy(KnownIndexExprs[strings.ToLower(ix.Name)])
 			where := ""
 			if ix.Partial {
